@@ -8,8 +8,9 @@ open Grog Grog.Paths Spec
 
 /-! ## inputs and outputs -/
 
-theorem inputErrors_nil {t : Target} : inputErrors t = [] ↔ ∀ i ∈ t.inputs, ¬ InputEscapes i := by
+theorem inputErrors_nil {t : Target} : inputErrors Cfg.current t = [] ↔ ∀ i ∈ t.checkedInputs, ¬ InputEscapes i := by
   unfold inputErrors
+  simp only [Cfg.current, if_true]
   rw [List.filterMap_eq_nil_iff]
   constructor
   · intro h i hi
@@ -203,7 +204,7 @@ theorem depErrors_nil {ns : List Node} (hnd : NoDuplicate ns) (hnc : NoCycle ns)
 
 theorem constraintErrors_nil_targets {ws : Bytes} (hws : isAbs ws = true) {ns : List Node} :
     (targetsOf ns).flatMap (targetErrors Cfg.current ws) = [] ↔
-      (∀ t, Node.target t ∈ ns → ∀ i ∈ t.inputs, ¬ InputEscapes i) ∧
+      (∀ t, Node.target t ∈ ns → ∀ i ∈ t.checkedInputs, ¬ InputEscapes i) ∧
       (∀ t, Node.target t ∈ ns → ∀ o ∈ t.outs, ¬ OutputEscapes ws t o) ∧
       (∀ t, Node.target t ∈ ns → t.isTest = true → t.hasCmd = true) := by
   rw [List.flatMap_eq_nil_iff]
@@ -225,7 +226,7 @@ theorem constraintErrors_nil_targets {ws : Bytes} (hws : isAbs ws = true) {ns : 
 theorem constraintErrors_nil {ws : Bytes} (hws : isAbs ws = true) {ns : List Node}
     (hnd : NoDuplicate ns) (hnc : NoCycle ns) :
     constraintErrors Cfg.current ws ns = [] ↔
-      (∀ t, Node.target t ∈ ns → ∀ i ∈ t.inputs, ¬ InputEscapes i) ∧
+      (∀ t, Node.target t ∈ ns → ∀ i ∈ t.checkedInputs, ¬ InputEscapes i) ∧
       (∀ t, Node.target t ∈ ns → ∀ o ∈ t.outs, ¬ OutputEscapes ws t o) ∧
       (∀ t, Node.target t ∈ ns → t.isTest = true → t.hasCmd = true) ∧
       ¬ BadTestDep ns := by
